@@ -756,7 +756,7 @@ class BasisSineDVR(BasisSet):
         return np.pi**2*np.arange(1,self.nbas+1)**2/self.L**2/2
 
     def copy(self, new_dof):
-        return self.__class__(new_dof, self.nbas, xi=self.xi, xf=self.xf)
+        return self.__class__(new_dof, self.nbas, xi=self.xi, xf=self.xf, dvr=self.dvr)
 
 
 class BasisMultiElectron(BasisSet):
